@@ -13,7 +13,7 @@ EXPLANATION = (
     "`info.clients` also stores to `received` a value that depends on `other.received`; in parse_server_info every "
     "push of a client of a multi-part version is dominated by a `received |= 1 << ..` on the same path.  R3: get_info "
     "returns Some only on the `clients.len() == num_clients` edge and sorts first; take_info goes through get_info.  "
-    "R4: the count sanity test dominates the client loop.  Not decided: order independence beyond the final sort."
+    "R4: the count sanity test dominates the client loop.  R2b: merge swaps the two partial infos as wholes.  Not decided: order independence beyond the final sort."
 )
 ASSUMPTIONS = [
     "std / arrayvec functions outside the precondition table do not panic",
@@ -53,6 +53,7 @@ def run(ctx, rep):
     merge_bookkeeping(prog, rep)
     parse_bookkeeping(prog, rep)
     completeness(prog, rep)
+    whole_swap(ctx.prog, rep)
 
 
 def _stores(body, ir, field_pred):
@@ -224,3 +225,20 @@ def completeness(prog, rep):
     ok = bool(gi) and all(any(tk.dominates(g, r) for g in gi) for r in rep_calls) and bool(rep_calls)
     rep.ob(rule, "take_info | through get_info", ok,
            "take_info hands out the info only after get_info" if ok else "take_info bypasses get_info", tk.loc())
+
+
+def whole_swap(prog, rep):
+    """R2b: when the continuation packet arrived first, merge exchanges the two partial infos as wholes (header, clients and
+    the `received` mask together): mem::swap(self, &mut other), not a swap of one field"""
+    rule = "R2b-merge-swaps-whole-infos"
+    b = prog.one("libtw2_serverbrowse::protocol::PartialServerInfo::merge")
+    ir = IR(b)
+    sw = [(bi, t) for bi, t in b.calls() if (t.get("callee") or "") == "std::mem::swap"]
+    rep.floor(rule, len(sw), 1, "mem::swap in merge")
+    for bi, t in sw:
+        a0 = show(strip_sites(ir.term_operand(bi, t["args"][0])))
+        a1 = show(strip_sites(ir.term_operand(bi, t["args"][1])))
+        ok = a0 in ("&mut *self", "self") and a1 in ("&mut other", "&mut *other")
+        rep.ob(rule, "swap(self, other)", ok, "the partial infos are exchanged as wholes" if ok else
+               "merge swaps `%s` with `%s`: the `received` masks stay behind, so the main packet's bit is never recorded and the info cannot complete" % (a0, a1),
+               b.loc(t.get("ln")))
